@@ -2,6 +2,7 @@ package props
 
 import (
 	"bytes"
+	"context"
 	"fmt"
 	"os"
 	"os/exec"
@@ -37,7 +38,9 @@ func runCLI(dir string, stdin string, args ...string) cliResult {
 	if bin == "" {
 		panic("HARNESS-ERROR: VERIF_BCL_BIN not set (run through ./check)")
 	}
-	cmd := exec.Command(bin, args...)
+	ctx, cancel := context.WithTimeout(context.Background(), 60*time.Second)
+	defer cancel()
+	cmd := exec.CommandContext(ctx, bin, args...)
 	cmd.Dir = dir
 	if len(slowStdin) > 0 && stdin != "" {
 		pr, pw, err := os.Pipe()
@@ -65,6 +68,9 @@ func runCLI(dir string, stdin string, args ...string) cliResult {
 	cmd.Stdout, cmd.Stderr = &so, &se
 	err := cmd.Run()
 	st := 0
+	if ctx.Err() != nil {
+		return cliResult{so.String(), "VERIF: the tool did not exit within 60 s and was killed\n" + se.String(), -99}
+	}
 	if err != nil {
 		if ee, ok := err.(*exec.ExitError); ok {
 			st = ee.ExitCode()
@@ -77,20 +83,51 @@ func runCLI(dir string, stdin string, args ...string) cliResult {
 
 type flagSet struct{ d, t, r, s bool }
 
+func (f flagSet) letters() string {
+	out := ""
+	for _, p := range []struct {
+		on bool
+		l  string
+	}{{f.d, "d"}, {f.t, "t"}, {f.r, "r"}, {f.s, "s"}} {
+		if p.on {
+			out += p.l
+		}
+	}
+	return out
+}
+
 // predict runs the library the way the tool is documented to and gives the
 // expected streams and status.
-func predict(src, name string, fl flagSet) (res cliResult, parseFailed bool) {
+func predict(src, name string, fl flagSet) (res cliResult, parseFailed bool, listing string) {
 	var out, errb bytes.Buffer
 	p, err := bcl.ParseFile(&scriptFile{data: []byte(src), name: name}, bcl.OptOutput(&out), bcl.OptLogger(&errb),
 		bcl.OptDisasm(fl.d), bcl.OptStats(fl.s))
 	if err != nil {
-		return cliResult{out.String(), errb.String(), 1}, true
+		return cliResult{out.String(), errb.String(), 1}, true, ""
 	}
-	_, _, err = bcl.Execute(p, bcl.OptOutput(&out), bcl.OptLogger(&errb), bcl.OptTrace(fl.t), bcl.OptStats(fl.s))
+	blocks, binding, err := bcl.Execute(p, bcl.OptOutput(&out), bcl.OptLogger(&errb), bcl.OptTrace(fl.t), bcl.OptStats(fl.s))
 	if err != nil {
-		return cliResult{out.String(), errb.String(), 1}, false
+		return cliResult{out.String(), errb.String(), 1}, false, ""
 	}
-	return cliResult{out.String(), errb.String(), 0}, false
+	return cliResult{out.String(), errb.String(), 0}, false, fmt.Sprintf("result:  %+v\nbinding: %+v\n", blocks, binding)
+}
+
+// strictListing: the tool's -r listing has the format this harness knows
+// ("result:  %+v" and "binding: %+v" of what Execute returned). No property
+// fixes that format, so it is not demanded; but while it is in use the values
+// in it are compared exactly. calibrateC18 decides it on a known program.
+var strictListing bool
+
+func calibrateC18() {
+	dir, err := os.MkdirTemp(os.Getenv("VERIF_SCRATCH"), "c18cal")
+	must(err)
+	defer os.RemoveAll(dir)
+	src := "def b \"n\" { x = 1; y = \"s\" }\ndef b { z = 2.5 }\nbind b:all -> slice\nprint 7\n"
+	must(os.WriteFile(filepath.Join(dir, "p.bcl"), []byte(src), 0o644))
+	want, _, listing := predict(src, "p.bcl", flagSet{r: true})
+	got := runCLI(dir, "", "-r", "p.bcl")
+	strictListing = got.Status == 0 && got.Stdout == want.Stdout+listing
+	harness.Get("C18").SetExtra("result_listing_compared", fmt.Sprintf("%v (true: the tool's -r listing has the known format and its values are compared exactly; false: only its presence is required)", strictListing))
 }
 
 // mirrors tells whether the tool's run is what the library's run predicts:
@@ -98,11 +135,17 @@ func predict(src, name string, fl flagSet) (res cliResult, parseFailed bool) {
 // with -r on a successful run) by the tool's own listing of the results,
 // whose format no property fixes; standard error is what the library logged,
 // followed (only on failure) by the tool's own line reporting the error.
-func mirrors(got, want cliResult, fl flagSet) bool {
+func mirrors(got, want cliResult, fl flagSet, listing string) bool {
 	if got.Status != want.Status {
 		return false
 	}
 	switch {
+	case fl.r && want.Status == 0 && strictListing:
+		// the known listing format is in use (see calibrateC18): every value
+		// must come out as the library returned it
+		if got.Stdout != want.Stdout+listing {
+			return false
+		}
 	case fl.r && want.Status == 0:
 		if !strings.HasPrefix(got.Stdout, want.Stdout) || len(got.Stdout) == len(want.Stdout) {
 			return false
@@ -119,7 +162,9 @@ func mirrors(got, want cliResult, fl flagSet) bool {
 type caseC18 struct {
 	Src   string     `json:"src"`
 	Argvs [][]string `json:"argvs"`
-	Mode  string     `json:"mode"` // file | dash | stdin
+	Mode  string     `json:"mode"`            // file | dash | stdin
+	File  string     `json:"file,omitempty"`  // the FILE argument ("" or "-": standard input)
+	Flags string     `json:"flags,omitempty"` // letters of the flag set (d, t, r, s)
 	Note  string     `json:"note"`
 }
 
@@ -223,6 +268,7 @@ func stripPstats(s string) string {
 
 func TestC18(t *testing.T) {
 	rec := harness.Get("C18")
+	calibrateC18()
 	if replayPath() != "" {
 		var c caseC18
 		must(harness.LoadReplay(replayPath(), &c))
@@ -230,17 +276,37 @@ func TestC18(t *testing.T) {
 		dir := t.TempDir()
 		must(os.WriteFile(filepath.Join(dir, "p.bcl"), []byte(c.Src), 0o644))
 		must(os.WriteFile(filepath.Join(dir, "p.txt"), []byte(c.Src), 0o644))
+		must(os.Mkdir(filepath.Join(dir, "adir"), 0o755))
+		stdin, name := c.Src, "/dev/stdin"
+		if c.File != "" && c.File != "-" {
+			must(os.MkdirAll(filepath.Join(dir, filepath.Dir(c.File)), 0o755))
+			must(os.WriteFile(filepath.Join(dir, c.File), []byte(c.Src), 0o644))
+			stdin, name = "", c.File
+		}
+		fl := flagSet{strings.Contains(c.Flags, "d"), strings.Contains(c.Flags, "t"), strings.Contains(c.Flags, "r"), strings.Contains(c.Flags, "s")}
 		var first *cliResult
-		for _, av := range c.Argvs {
-			stdin := ""
-			if c.Mode != "file" {
-				stdin = c.Src
-			}
+		for k, av := range c.Argvs {
 			r := runCLI(dir, stdin, av...)
+			isDumpLoad := false
+			for _, a := range av {
+				if strings.HasPrefix(a, "--bdump") || strings.HasPrefix(a, "--bload") {
+					isDumpLoad = true
+				}
+			}
+			if k == 0 && !strings.HasPrefix(c.Note, "usage") {
+				want, _, listing := predict(c.Src, name, fl)
+				if !mirrors(r, want, fl, listing) {
+					rec.Fail(t, c, "bcl %v differs from the library called the documented way: status %d vs %d\nstdout %q\n    vs %q\nstderr %q\n    vs %q", av, r.Status, want.Status,
+						clip(r.Stdout, 600), clip(want.Stdout, 600), clip(r.Stderr, 300), clip(want.Stderr, 300))
+				}
+			}
 			if first == nil {
 				first = &r
-			} else if r != *first && c.Note == "metamorphic" {
-				rec.Fail(t, c, "argument vectors %v and %v give different results", c.Argvs[0], av)
+			} else if !isDumpLoad && r != *first {
+				rec.Fail(t, c, "argument vectors %v and %v give different results: status %d vs %d, stdout %q vs %q, stderr %q vs %q", c.Argvs[0], av,
+					first.Status, r.Status, clip(first.Stdout, 300), clip(r.Stdout, 300), clip(first.Stderr, 200), clip(r.Stderr, 200))
+			} else if isDumpLoad && r.Status != first.Status {
+				rec.Fail(t, c, "bcl %v exits with %d, bcl %v with %d (stderr %q)", av, r.Status, c.Argvs[0], first.Status, clip(r.Stderr, 300))
 			}
 		}
 		return
@@ -405,11 +471,11 @@ func TestC18(t *testing.T) {
 		feats = append(feats, "program:"+class, "input:"+mode)
 
 		// (1) mirror
-		want, parseFailed := predict(src, name, fl)
+		want, parseFailed, listing := predict(src, name, fl)
 		argv1 := placeFile(t, spellFlags(t, fl), fileArg)
 		got := runCLI(dir, stdin, argv1...)
-		c := caseC18{Src: src, Argvs: [][]string{argv1}, Mode: mode, Note: "mirror"}
-		if !mirrors(got, want, fl) {
+		c := caseC18{Src: src, Argvs: [][]string{argv1}, Mode: mode, Note: "mirror", File: fileArg, Flags: fl.letters()}
+		if !mirrors(got, want, fl, listing) {
 			rec.Case(true, harness.Hash(src, strings.Join(argv1, " ")), feats...)
 			rec.Fail(t, c, "bcl %v differs from the library called the documented way (the tool's own result listing after the library's output and its own error line after the library's diagnostics are not compared):\n--- tool: status %d\nstdout %q\nstderr %q\n--- library: status %d\nstdout %q\nstderr %q\nsource:\n%s",
 				argv1, got.Status, clip(got.Stdout, 600), clip(got.Stderr, 400), want.Status, clip(want.Stdout, 600), clip(want.Stderr, 400), clip(src, 500))
